@@ -27,7 +27,7 @@ STYLES = [dict(key="long", val="word", group="never"),     # canonical
 
 
 def cases(tier):
-    return 5000 if tier == "quick" else 150000
+    return 12000 if tier == "quick" else 150000
 
 
 def gen_case(seed, idx, tier):
